@@ -10,7 +10,8 @@ From V Require Import Model.Cleanup Proofs.Cleanup Proofs.CleanupSrc Gen.GenClea
 
 (* Tie to the source: in both servers the code that runs when a connection's request loop is left calls the
    disconnect hook exactly once, releases the slot, closes the socket, drops the session instances and closes the
-   tracked resources exactly once before clearing the set; every class of exception leaving Daemon.handleRequest
+   tracked resources exactly once before clearing the set; none of that release is skipped when the user hook raises
+   (inside the try that guards the hook nothing follows the hook call); every class of exception leaving Daemon.handleRequest
    (connection closed, protocol, timeout, security, anything else) leaves the loop; SecurityError and
    @callback exceptions are re-raised by Daemon.handleRequest. *)
 Theorem C13_source_shapes_ok : shape_ok thread_shape = true /\ shape_ok mux_shape = true.
